@@ -67,7 +67,24 @@ REQUESTS = {
     "tm_ph2": ("", lambda A: A["prop"].trans_moment_space(2, "ph")),
     "itmd_t2_2": ("ijab", lambda A: A["itmd"].available["t2_2"].expand_itmd(indices="ijab").sympy),
     "singles1": ("ia", lambda A: A["gs_s"].amplitude(1, "ph", "ia")),
+    # no value: the products of wavefunctions inside the precursor states are scanned for indices
+    # that occur more than twice in a term (two factors sharing their contracted indices)
+    "wf_products": ("", lambda A: 0),
 }
+
+
+def overfull_terms(expr):
+    """terms of the (expanded) expression in which an index occurs more than twice"""
+    from sympy import Add, sympify
+    from vlib import ir as IR
+    bad = []
+    for t in Add.make_args(sympify(expr).expand()):
+        cnt = {}
+        for s in IR.term_indices(IR.term_ir(t)):
+            cnt[s] = cnt.get(s, 0) + 1
+        if any(c > 2 for c in cnt.values()):
+            bad.append(str(t)[:200])
+    return bad
 
 
 def main():
@@ -112,6 +129,15 @@ def main():
         tg = {(x.name, x.space, x.spin) for x in get_symbols(t1 + t2)}
         if (s1 & s2) - tg:
             shared.append([nm] + sorted((s1 & s2) - tg))
+    if req == "wf_products":
+        for tag, g in (("mp", gs), ("mp+singles", A["gs_s"])):
+            isr = IntermediateStates(g, "pp")
+            for order in (2, 3):
+                for bk in ("bra", "ket"):
+                    bad = overfull_terms(isr.precursor(order, "ph", bk, "ia"))
+                    if bad:
+                        shared.append([f"precursor({order}, 'ph', '{bk}') [{tag}]: index more than twice in "
+                                       f"{len(bad)} term(s), e.g. {bad[0]}"])
     # identical requests return identical objects
     ident = all(get_symbols(n)[0] is get_symbols(n)[0] for n in ["i", "a3", "p", "k12"])
     out = {"ir": IR.expr_ir(e.sympy), "text": text, "target": [IR.idx_ir(s) for s in T],
